@@ -1,6 +1,9 @@
 package rules
 
 import (
+	"encoding/json"
+	"path/filepath"
+	"os"
 	"fmt"
 	"go/ast"
 	"go/constant"
@@ -106,6 +109,7 @@ func runC02(c *Ctx) {
 		"C02.3 restorers whose records follow the index records in the stream never lower an index row (max-merge only)",
 		"C02.4 FSM.Restore swaps the state in only after the restore transaction committed, aborts by defer, swaps and refreshes subscriptions under the state lock, abandons the old store afterwards; no restorer opens or commits a transaction of its own",
 		"C02.5 the registration restorer goes through the same registration function as the online path, so derived catalog tables are rebuilt by their maintainers",
+		"C02.7 for every restorer that reads a table restored by another record kind, the order of the two in the snapshot stream is the reviewed one (rules/c02_restore_order.json)",
 		"C02.6 the restore-side rebuild of the peering secret UUID table adds, on every path on which it is non-empty, every secret the online delete path frees",
 	}
 	r.NotDecided = []string{"that restored content equals persisted content for every state (needs the round trip)", "create/modify index equality per row", "query-result equality after the cut"}
@@ -407,6 +411,118 @@ func runC02(c *Ctx) {
 			}
 		}
 		r.Floor("C02.3", 3)
+	}
+
+	// ---- C02.7 restore-order dependences: a restorer that re-runs online logic reads tables
+	// that other record kinds restore; whether those are already present when it runs is decided
+	// by the order of the snapshot stream. The direction of every such pair is compared with the
+	// reviewed reference table (rules/c02_restore_order.json).
+	{
+		pos := map[int64]int{}
+		for i, call := range order {
+			g := call.Common().StaticCallee()
+			if g == nil {
+				continue
+			}
+			for f := range reachableStatic(p, []*ssa.Function{g}, fsmPkg) {
+				for _, w := range writes {
+					if w.fn == f {
+						if _, ok := pos[w.kind]; !ok {
+							pos[w.kind] = i
+						}
+					}
+				}
+			}
+		}
+		reads := map[int64]core.StrSet{}
+		writesT := map[int64]core.StrSet{}
+		owners := map[string][]int64{}
+		var kinds []int64
+		for k, rs := range restorerByKind {
+			kinds = append(kinds, k)
+			reads[k], writesT[k] = core.StrSet{}, core.StrSet{}
+			for f := range reachableConsul(p, rs.fn) {
+				if !strings.HasSuffix(core.FuncPkgPath(f), "/"+statePkg) {
+					continue
+				}
+				for _, b := range f.Blocks {
+					for _, in := range b.Instrs {
+						op := core.AsMemdbOp(in)
+						if op == nil || !op.TableKnown || op.Table == indexTableName {
+							continue
+						}
+						if op.IsRead() {
+							reads[k][op.Table] = true
+						}
+						if op.Op == "Insert" {
+							writesT[k][op.Table] = true
+						}
+					}
+				}
+			}
+		}
+		sort.Slice(kinds, func(i, j int) bool { return kinds[i] < kinds[j] })
+		for _, k := range kinds {
+			for t := range writesT[k] {
+				owners[t] = append(owners[t], k)
+			}
+		}
+		current := map[string]string{}
+		for _, k := range kinds {
+			pk, ok := pos[k]
+			if !ok {
+				continue
+			}
+			for _, t := range reads[k].Keys() {
+				if writesT[k][t] {
+					continue
+				}
+				for _, k2 := range owners[t] {
+					p2, ok := pos[k2]
+					if !ok || k2 == k {
+						continue
+					}
+					dir := "after"
+					if p2 < pk {
+						dir = "before"
+					} else if p2 == pk {
+						dir = "same"
+					}
+					current[fmt.Sprintf("%s reads %s (restored by %s)", nameOf(k), t, nameOf(k2))] = dir
+				}
+			}
+		}
+		ref := map[string]string{}
+		if b, err := os.ReadFile(filepath.Join(c.VerifDir, "rules", "c02_restore_order.json")); err == nil {
+			var doc struct {
+				Pairs map[string]string `json:"pairs"`
+			}
+			if json.Unmarshal(b, &doc) == nil {
+				ref = doc.Pairs
+			}
+		}
+		var keys []string
+		for k := range current {
+			keys = append(keys, k)
+		}
+		sort.Strings(keys)
+		r.Analysed["restore_order_pairs"] = current
+		var fresh []string
+		for _, k := range keys {
+			want, known := ref[k]
+			switch {
+			case !known:
+				fresh = append(fresh, k+": "+current[k])
+			case want == current[k]:
+				r.Hold("C02.7", k, "", "that table's records come "+map[string]string{"before": "before", "after": "after", "same": "in the same persister as"}[want]+" this restorer's records, as reviewed")
+			default:
+				r.Violate("C02.7", k, "", fmt.Sprintf("the snapshot stream now has the records of that table %s this restorer's records (reviewed order: %s): the online logic the restorer re-runs sees a different state than it did when the reference was reviewed — e.g. the registration restorer allocating virtual IPs because the virtual-ips feature flag is already visible — so restore no longer reproduces the persisted state", current[k], want))
+			}
+		}
+		if len(fresh) > 0 {
+			r.Notes = append(r.Notes, "restore-order pairs not in the reviewed reference (not judged): "+strings.Join(fresh, "; "))
+		}
+		r.Floor("C02.7", 5)
 	}
 
 	checkFSMRestore(c, restorers2funcs(restorers))
